@@ -310,10 +310,11 @@ structure Schema where
   deriving DecidableEq, Repr
 
 /-- field layout of a hand-written codec as extracted from its Rust impls by tools/gen_msg_schemas.py (compared with the
-    hand-written schemas of Model/MsgSchemasHand.lean by Props/C13 `hand_schemas_match_source`): fixed field types in
+    hand-written schemas of Model/MsgSchemasHand.lean by Props/C13 `hand_schemas_match_source`): fixed field names and types in
     order, TLVs (type, payload type), ends with `read_to_end` excess data, index of the u8 field whose low bit is checked -/
 structure HandLayout where
   name : String
+  names : List String
   fixed : List FieldTy
   tlvs : List (Nat × FieldTy)
   tail : Bool
